@@ -267,7 +267,21 @@ func firstUnappliedSig(c fw.Case, outs []string, msg string) bool {
 			continue
 		}
 		if cfg.Applied == 0 && p.Prev == 0 && cfg.Index != p.Index && cfg.Master != 0 && cfg.State == "SYNCHRONIZED" && cfg.AppliedTerm == cfg.Term {
-			return true
+			// the unchanged code does reach p when the proposal <Configuration.Index> is itself waiting to be
+			// applied: each applying proposal re-queues its predecessor.  Only when that chain is broken
+			// (no such proposal, or one on the way that is not in its apply phase) is this the listed finding.
+			reached := false
+			q := st.Prop[fmt.Sprintf("%d-%d", p.Target, cfg.Index)]
+			for hops := 0; q != nil && q.Apply == "o" && hops < 1000; hops++ {
+				if q.Index == p.Index {
+					reached = true
+					break
+				}
+				q = st.Prop[fmt.Sprintf("%d-%d", p.Target, q.Prev)]
+			}
+			if !reached {
+				return true
+			}
 		}
 	}
 	return false
